@@ -1122,6 +1122,8 @@ namespace cppcms { namespace xss {
 			case full:
 				if(!parser.parse_full())
 					return false;
+				if(!parser.has_scheme())
+					return false;
 				return booster::regex_match(parser.scheme_begin(),parser.scheme_end(),scheme_);
 			};
 			return false;
